@@ -413,7 +413,14 @@ def run(ctx):
                         bad = "find_safety(max_step = %r) = %r is smaller than min(max_step, find_safety() = %r)" % (ms, rm, s)
                     if bad:
                         break
-            if bad is None and res["nbad"] > 0:
+            # the sphere-sampling / same-volume clause is about interior points: a safety radius inside the
+            # geometry's tolerance band (100 x 1e-8 x length scale) means the point is within tolerance of a
+            # boundary and the sampled "sphere" straddles it - not judged (the next-step clause above still is)
+            band = 100 * 1e-8 * max([1.0] + [abs(x) for x in p])
+            rmax_rep = max([s] + [rm for _, rm in res["with_max_step"]])
+            if res["nbad"] > 0 and not (rmax_rep >= band):
+                ctx.count("not-judged:point-within-tolerance-of-a-boundary")
+            if bad is None and res["nbad"] > 0 and rmax_rep >= band:
                 bad = ("%d sample point(s) of the sphere of the largest reported safety radius are in another volume, e.g. %r "
                        "(find_safety() = %r, with max_step: %r)" % (res["nbad"], res["badp"], s, res["with_max_step"][:6]))
             mvd = res["moved"]
@@ -449,7 +456,10 @@ def run(ctx):
                            % (mvd["local_pos_dev_dist"], mvd["local_pos_dev_pos"]))
                 if bad is None and not (mvd["same_path_dist"] and mvd["same_path_pos"]):
                     bad = "volume path after move_internal differs from a fresh initialisation at %r" % (mvd["reached"],)
-                if bad is None and mvd["nbad"] > 0 and not (sf == INF):
+                rmv = max(mvd["after_move_dist"], mvd["after_move_dist_maxstep"], mvd["after_move_pos"], mvd["after_move_pos_maxstep"])
+                if mvd["nbad"] > 0 and not (rmv >= band):
+                    ctx.count("not-judged:point-within-tolerance-of-a-boundary")
+                if bad is None and mvd["nbad"] > 0 and not (sf == INF) and rmv >= band:
                     bad = ("%d sample point(s) of the safety sphere around the moved point %r are in another volume, e.g. %r"
                            % (mvd["nbad"], mvd["reached"], mvd["badp"]))
                 if bad:
